@@ -41,7 +41,7 @@ def run_demo(seed_dir, tools, scratch):
 
 
 def main():
-    ids = sys.argv[1:] or sorted(d for d in os.listdir(os.path.join(VERIF, 'seeded')) if os.path.isdir(os.path.join(VERIF, 'seeded', d)))
+    ids = sys.argv[1:] or sorted(d for d in os.listdir(os.path.join(VERIF, 'seeded')) if os.path.isdir(os.path.join(VERIF, 'seeded', d)) and not d.startswith('_'))
     wt = tempfile.mkdtemp(prefix='vf-reconf-', dir='/var/tmp')
     os.rmdir(wt)
     scratch = tempfile.mkdtemp(prefix='vf-reconf-s-', dir='/var/tmp')
